@@ -33,9 +33,16 @@ def main2():
         else:
             runs.append(("stmt", "stmtfault", sorted(s.blocks), 0, 0, 4))
             runs.append(("req", "reqfault", sorted(s.blocks), 0, 0, 4))
+        runs = [r + (doc,) for r in runs]
+        # the payout block of a chain with stakers (snapshot rotation, staking and developer payouts): every statement (quick: of
+        # one payout block; thorough: of both) fails once
+        import c14
+        sdoc = c14.chain(seed + 1, 0, "quick").doc()
+        sdoc["name"] = "c10-payouts"
+        runs.append(("snap", "stmtfault", [288] if tier == "quick" else [144, 288], 0, 0, 2, sdoc))
         open_f = vlib.open_findings(PID)
         viol, known, nexp, states, samples, deaths = [], {}, 0, 0, [], {}
-        for (name, mode, full, stride, off, span) in runs:
+        for (name, mode, full, stride, off, span, doc) in runs:
             path = c02.crash_run(vh, doc, work, name, full, stride, off, span=span, mode=mode)
             evs = [json.loads(l) for l in open(path)]
             if any(e["ev"] == "Infra" for e in evs):
@@ -92,7 +99,8 @@ def main2():
             "rule": "one experiment per (block, SQL event k) resp. (block, upstream request i): the real daemon applies the block from the reference database, "
                     "event k / request i fails once with an injected error, the daemon must retry and commit; it is then resumed and the canonical dump compared "
                     "with the fault-free run; every experiment is replayed through Sync.tla by TLC (FailInBlock / FailInsertSynced / FailCommit). quick: every "
-                    "9th statement and every 3rd request of all blocks plus all requests of one block; thorough: every statement and request of every block. "
+                    "9th statement and every 3rd request of all blocks plus all requests of one block, and every statement of a payout block (snapshot rotation, "
+                    "staking and developer payouts); thorough: every statement and request of every block. "
                     "Failing experiments are classified by the call site of the failed operation (innermost two pegnetd frames).",
             "samples": samples[:3], "exhaustive": tier == "thorough",
             "states": mc["states"] + states, "transitions": mc["transitions"] + states, "traces_validated_against_impl": nexp,
